@@ -29,7 +29,27 @@ pub struct Cfg {
     pub repo: PathBuf,
 }
 
+static START: std::sync::OnceLock<std::time::Instant> = std::sync::OnceLock::new();
+pub fn mark_start() {
+    let _ = START.get_or_init(std::time::Instant::now);
+}
+
 impl Cfg {
+    /// Soft workload limiter (`--set deadline_s=N`): stop *generating* further cases.  Never a
+    /// verdict: coverage floors decide whether what was observed is enough.
+    pub fn expired(&self) -> bool {
+        match self.knobs.get("deadline_s").and_then(|v| v.parse::<f64>().ok()) {
+            Some(d) => START.get().map(|s| s.elapsed().as_secs_f64() > d).unwrap_or(false),
+            None => false,
+        }
+    }
+    /// oracle step budget per decode (small under interpreters)
+    pub fn oracle_budget(&self) -> u64 {
+        match self.tier {
+            Tier::Tiny => 2_000,
+            _ => 100_000,
+        }
+    }
     pub fn knob_u64(&self, k: &str, default: u64) -> u64 {
         self.knobs.get(k).and_then(|v| v.parse().ok()).unwrap_or(default)
     }
@@ -235,6 +255,17 @@ where
 {
     let n = cfg.threads.max(1);
     let mut total = Stats::new();
+    crate::model::warm_up();
+    let lane_t0 = std::time::Instant::now();
+    struct LaneTimer(std::time::Instant, u64, bool);
+    impl Drop for LaneTimer {
+        fn drop(&mut self) {
+            if self.2 {
+                eprintln!("[lane {}] {:.2}s", self.1, self.0.elapsed().as_secs_f64());
+            }
+        }
+    }
+    let _lt = LaneTimer(lane_t0, lane, cfg.knobs.contains_key("timing"));
     if n == 1 {
         let mut t = Tctx {
             cfg,
@@ -316,7 +347,7 @@ impl Report {
     /// Write result JSON + replay files; returns (number of violations, inconclusive?).
     pub fn finish(mut self, cfg: &Cfg, wall_s: f64) -> (usize, bool) {
         // floors -> inconclusive
-        let floors = std::mem::take(&mut self.floors);
+        let floors = if cfg.tier == Tier::Tiny { Vec::new() } else { std::mem::take(&mut self.floors) };
         for (k, min) in &floors {
             let have = self.stats.counters.get(k).copied().unwrap_or(0);
             if have < *min {
